@@ -300,6 +300,14 @@ def run_program(item):
         if s['kind'] == 'dup':
             return DF.duplicate(s['src'], s['dst'])
         if s['kind'] == 'addall':
+            # a field zA added to EVERY resource by one step - in each of the ways a built-in step adds fields to several resources
+            how = s.get('how', 'add_field')
+            if how == 'acf_dict':
+                return DF.add_computed_field(target=dict(name='zA', type='string'), operation='constant', with_='A')
+            if how == 'acf_str':
+                return DF.add_computed_field(target='zA', operation='format', with_='{b}')
+            if how == 'unpivot':
+                return DF.unpivot([dict(name='b', keys=dict(k='b'))], [dict(name='k', type='string')], dict(name='zA', type='string'))
             return DF.add_field('zA', 'string', 'A')
         if s['kind'] == 'retype':
             return DF.set_type('zA', type='any', resources=sel)
@@ -485,7 +493,7 @@ def run():
         else:
             cands0 = [c for c in by_names.get(names, []) if c['kind'] == 'touch' and c['selected']]
             c0 = r.choice(cands0)
-            progs.append(dict(names=list(names), s1=dict(sel=dict(k='none'), kind='addall', marker='A'),
+            progs.append(dict(names=list(names), s1=dict(sel=dict(k='none'), kind='addall', marker='A', how=r.choice(['add_field', 'acf_dict', 'acf_str', 'unpivot'])),
                               s2=dict(sel=c0['sel'], kind='retype', marker='B'), exp_names=list(names),
                               exp_A=list(names), exp_B=[names[p - 1] for p in c0['selected']]))
     pres = pmap(run_program, progs, chunksize=32)
